@@ -62,7 +62,7 @@ def limit_chunkings(body):
 
 
 WIRE_NL = [b"\r\n", b"\n", b"\r"]
-WIRE_PAD = [b"", b" ", b"\t "]
+WIRE_PAD = [b"", b" ", b"\t ", b"    ", b" \t \t \t  ", b" " * 70]
 WIRE_FOLD = [None, b"\t", b" "]
 
 
@@ -91,6 +91,8 @@ def run_wireforms(r, ni):
     forms = [[P("f", None, b"ab"), P("u", "C:\\reports\\q3.bin", b"0123456789"), P("g", None, b"cd")],
              [P("u", "plain.bin", b"UPLOAD"), P("f", None, "é".encode())],
              [P("f", None, b"only a field")],
+             # values that carry the delimiter text in the middle of a line
+             [P("f", None, b"a --bd b"), P("g", None, b"--bd"), P("h", None, b"x--bd--")],
              # parts whose Content-Disposition names no field: parts all the same, counted like any other
              [P(None, None, b"x"), P("f", None, b"ab"), P(None, "up.bin", b"0123"), P("g", None, b"c"), P(None, None, b"")]]
     for fi, parts in enumerate(forms):
